@@ -18,6 +18,11 @@
 (*                                from a plain reader / from pieces of any *)
 (*                                lengths gives the value and re-encoding  *)
 (*                                that decoding from memory gives          *)
+(*   receiver independence         rsig[k] = rref: decoding into a value   *)
+(*                                that already holds another decoded value *)
+(*                                (empty, full, small, large, ...) gives   *)
+(*                                the state, answers and re-encoding that  *)
+(*                                decoding into a fresh value gives        *)
 (*   both polygon formats         every forced format gives fp0 / ans0     *)
 (*   the format-choice rule       compressed iff 4n + 26(n - s) < 24n      *)
 (*                                (n vertices, s at the most frequent snap *)
@@ -47,6 +52,8 @@ BoundKept(e) == /\ e.bndenc => /\ Len(e.keys0) = Len(e.keys1)
 BothFormats(e) == \A k \in 1..Len(e.altfp) : e.altfp[k] = e.fp0 /\ e.altans[k] = e.ans0 /\ e.altb0[k] = e.altb1[k]
 \* Wire!ChunkingInvariant: the decoded value does not depend on how the reader delivered the bytes
 TransportFree(e) == \A k \in 1..Len(e.tsig) : e.tsig[k] = e.tref
+\* Wire!ReceiverLaw: the decoded value does not depend on what the receiver held before
+ReceiverFree(e) == \A k \in 1..Len(e.rsig) : e.rsig[k] = e.rref
 ChoiceOK(e) == e.type = "Polygon" => e.fmt = ChoiceRule(e) /\ e.snapped <= e.n
 
 Why(e) ==
@@ -57,6 +64,7 @@ Why(e) ==
     ELSE IF ~BoundKept(e) THEN "bound"
     ELSE IF ~BothFormats(e) THEN "forced-format"
     ELSE IF ~TransportFree(e) THEN "transport"
+    ELSE IF ~ReceiverFree(e) THEN "receiver"
     ELSE IF ~ChoiceOK(e) THEN "format-choice"
     ELSE ""
 
